@@ -1,7 +1,7 @@
 #!/bin/bash
 # run every check of MANIFEST.json in the given tier; prints one summary line per property
 tier=${1:-quick}
-cd /verif
+cd "$(dirname "$0")/.."
 for i in $(seq -w 1 20); do
   p=C$i
   out=$(python3 run/check.py $p --tier $tier 2>&1); rc=$?
